@@ -117,7 +117,10 @@ def _coord(rng, size):
 
 
 def _pt(rng, gm):
-    return '(%d,%d)' % (_coord(rng, gm[0]), _coord(rng, gm[1]))
+    # gm = (width, height, cols[, x offset, y offset]): extent of the screen or of the current viewport
+    ox = gm[3] if len(gm) > 3 else 0
+    oy = gm[4] if len(gm) > 4 else 0
+    return '(%d,%d)' % (ox + _coord(rng, gm[0]), oy + _coord(rng, gm[1]))
 
 
 def _attr(rng):
@@ -237,8 +240,27 @@ class _Hint(object):
         self.width = sess['text_width']
         self.gm = None      # (w, h, cols) when in graphics mode
         self.mode = 0
+        self.view = None    # extent for coordinates while a VIEW is (probably) set
+
+    def extent(self):
+        return self.view or self.gm or (640, 200, 80)
+
+    def set_view(self, op):
+        if self.gm is None:
+            return
+        if op.get('reset'):
+            self.view = None
+            return
+        x0, x1 = sorted((op['x0'], op['x1']))
+        y0, y1 = sorted((op['y0'], op['y1']))
+        if 0 <= x0 < x1 < self.gm[0] and 0 <= y0 < y1 < self.gm[1]:
+            if op.get('screen'):
+                self.view = (x1 - x0 + 1, y1 - y0 + 1, self.gm[2], x0, y0)
+            else:
+                self.view = (x1 - x0 + 1, y1 - y0 + 1, self.gm[2])
 
     def screen(self, m):
+        self.view = None
         if m == 0:
             self.gm = None
             self.mode = 0
@@ -276,8 +298,8 @@ def _screen_op(rng, hint, want_gfx=None, pages='any'):
             p = rng.choice([0, 0, 1, 1, 2, 3, 7])
             op['ap'] = op['vp'] = p
     elif pages == 'explicit' or rng.random() < 0.6:
-        op['ap'] = rng.choice([0, 0, 1, 1, 2, 3, 5, 7, 8])
-        op['vp'] = rng.choice([0, 0, 1, 1, 2, 3, 5, 7, 8, op['ap'], op['ap']])
+        op['ap'] = rng.choice([0, 0, 0, 1, 1, 1, 2, 3, 3, 7, 8])
+        op['vp'] = rng.choice([0, 0, 0, 1, 1, 2, 3, 8, op['ap'], op['ap']])
     if m is not None:
         hint.screen(m)
     return op
@@ -505,18 +527,19 @@ def gen(rng, tier, prop):
         for _ in range(n):
             gm = hint.gm or (640, 200, 80)
             r = rng.random()
-            if r < 0.52:
-                kind, stmt = _gfx_stmt(rng, gm, tier)
+            if r < 0.50:
+                kind, stmt = _gfx_stmt(rng, hint.extent(), tier)
                 ops.append({'op': 'gfx', 'kind': kind, 'stmt': stmt})
-            elif r < 0.64:
+            elif r < 0.66:
                 ops.append(_view_op(rng, gm))
+                hint.set_view(ops[-1])
             elif r < 0.70:
                 ops.append(_window_op(rng))
             elif r < 0.78:
-                ops.append(_getput_op(rng, gm))
+                ops.append(_getput_op(rng, hint.extent()))
             elif r < 0.88:
-                if rng.random() < 0.6:
-                    ops.append(_screen_op(rng, hint, want_gfx=None if rng.random() < 0.5 else True, pages='explicit'))
+                if rng.random() < 0.5:
+                    ops.append(_screen_op(rng, hint, want_gfx=None if rng.random() < 0.3 else True, pages='explicit'))
                 else:
                     ops.append({'op': 'screen', 'm': None, 'cs': None, 'ap': rng.choice([0, 1, 1, 2, 3]), 'vp': rng.choice([0, 0, 1, 2])})
             elif r < 0.92:
@@ -561,11 +584,15 @@ def _window_op(rng):
 
 def _getput_op(rng, gm):
     w, h = gm[0], gm[1]
+    ox = gm[3] if len(gm) > 3 else 0
+    oy = gm[4] if len(gm) > 4 else 0
     if rng.random() < 0.4:
-        x0 = rng.randint(0, w - 2)
-        y0 = rng.randint(0, h - 2)
-        return {'op': 'get', 'x0': x0, 'y0': y0, 'x1': min(w - 1, x0 + rng.randint(0, 40)), 'y1': min(h - 1, y0 + rng.randint(0, 30))}
-    return {'op': 'put', 'x': _coord(rng, w), 'y': _coord(rng, h), 'verb': rng.choice(['', 'PSET', 'PRESET', 'XOR', 'OR', 'AND'])}
+        x0 = rng.randint(0, max(0, w - 2))
+        y0 = rng.randint(0, max(0, h - 2))
+        return {'op': 'get', 'x0': ox + x0, 'y0': oy + y0, 'x1': ox + min(w - 1, x0 + rng.randint(0, 40)),
+                'y1': oy + min(h - 1, y0 + rng.randint(0, 30))}
+    return {'op': 'put', 'x': ox + _coord(rng, w), 'y': oy + _coord(rng, h),
+            'verb': rng.choice(['', 'PSET', 'PRESET', 'XOR', 'OR', 'AND'])}
 
 
 def simplify(cfg, ops):
@@ -1161,8 +1188,10 @@ def _h_cls(c, op):
 
 
 def _h_color(c, op):
-    _exec(c, 'COLOR ' + op['args'])
-    _scan_signals(c)
+    r = _exec(c, 'COLOR ' + op['args'])
+    mode_set = _scan_signals(c)
+    if c.prop == 'C36' and (r.err is not None or mode_set):
+        _resync_text(c)
 
 
 def _h_locate(c, op):
@@ -1181,7 +1210,8 @@ def _h_locate(c, op):
     if res.err is not None:
         if res.err != 5:
             c.run.violate('C36', 'locate:error-other-than-5', '%r gave error %r' % (stmt, res.errs))
-        tm.resync_cursor(*rep)
+        # the error message was printed on the screen
+        _resync_text(c)
         return
     outside = (r_ is not None and not 1 <= r_ <= tm.h) or (c_ is not None and not 1 <= c_ <= tm.w)
     if outside:
@@ -1220,10 +1250,13 @@ def _h_viewprint(c, op):
             tm.win_active = True
             tm.top, tm.bottom = a, bt
     if c.prop == 'C36':
+        if res.err is not None:
+            _resync_text(c)
+            return
         rep = _cursor(c)
         tm.resync_cursor(*rep)
-        if res.err is None and a is not None:
-            # cursor position after VIEW PRINT is inside the window; no overflow state
+        if a is not None:
+            # VIEW PRINT homes the cursor: no overflow state
             if tm.pending is None:
                 tm.pending = False
 
@@ -1309,16 +1342,20 @@ def _h_scrfn(c, op):
         v = c.d.eval(b'SCREEN(%d,%d)' % (r_, c_))
         c.compares += 1
         inside = 1 <= r_ <= h and 1 <= c_ <= wd
+        if v is None:
+            # an error: its message was printed on the screen
+            chars = c.d.chars()
+            if c.prop == 'C36':
+                _resync_text(c)
+            continue
         if not inside:
-            # row/col 0 are documented aliases of 1 in this implementation: not judged
-            if v is not None and (r_ > h or c_ > wd or r_ < 0 or c_ < 0):
+            # row/col 0 are aliases of 1 in this implementation: not judged
+            if r_ > h or c_ > wd or r_ < 0 or c_ < 0:
                 c.run.violate('C36', 'screenfn:value-for-cell-outside-screen',
                               'SCREEN(%d,%d)=%r on a %dx%d screen' % (r_, c_, v, h, wd))
             continue
-        if v is None:
-            continue
         got = chars[r_ - 1][c_ - 1]
-        if c.apage == c.vpage and v != ord(got):
+        if c.apage == c.vpage and c.apage is not None and v != ord(got):
             c.run.violate('C36', 'screenfn:differs-from-get-chars',
                           'SCREEN(%d,%d)=%r, get_chars cell %r' % (r_, c_, v, got))
         if c.prop == 'C36' and tm.grid is not None and tm.h == h and tm.w == wd and v != tm.grid[r_ - 1][c_ - 1]:
@@ -1391,9 +1428,13 @@ def _h_get(c, op):
     wd, ht = abs(x1 - x0) + 1, abs(y1 - y0) + 1
     n = 4 + (4 + ((wd * 2 + 7) // 8) * 4 * ht) // 2
     n = max(8, min(n, 7000))
-    c.d.exec(b'ERASE G%')
-    c.d.exec(b'DIM G%%(%d)' % n)
-    _gfx_common(c, dict(op, stmt='GET (%d,%d)-(%d,%d),G%%' % (x0, y0, x1, y1)), 'get')
+    c.last_get = (x0, y0, x1, y1, n)
+    if c.prop == 'C30':
+        _gfx_common(c, dict(op, stmt='DIM G%%(%d):GET (%d,%d)-(%d,%d),G%%' % (n, x0, y0, x1, y1)), 'get')
+    else:
+        c.d.exec(b'ERASE G%')
+        c.d.exec(b'DIM G%%(%d)' % n)
+        _gfx_common(c, dict(op, stmt='GET (%d,%d)-(%d,%d),G%%' % (x0, y0, x1, y1)), 'get')
 
 
 def _h_put(c, op):
@@ -1405,6 +1446,13 @@ def _h_put(c, op):
 
 def _h_gfx(c, op):
     _gfx_common(c, op, op.get('kind', 'gfx'))
+
+
+class FakeRes(object):
+    def __init__(self, err):
+        self.err = err
+        self.errs = [(err, None)] if err is not None else []
+        self.out = b''
 
 
 DRAWING = ('pset', 'preset', 'line', 'lineb', 'linebf', 'circle', 'paint', 'draw', 'put', 'view')
@@ -1433,12 +1481,35 @@ def _gfx_common(c, op, kind):
             _resync_text(c)
         return
     text_mode = c.text_mode
+    # In direct mode an error message would itself be printed on the screen (in graphics modes as
+    # pixels on the active page). Run the statement from a stored program with the error trapped,
+    # so that nothing but the statement can change the screen. Storing a line clears variables
+    # (hence GET and PUT travel together) and resets DRAW state, neither of which the oracle uses.
+    body = stmt
+    if kind == 'put' and getattr(c, 'last_get', None):
+        g = c.last_get
+        body = 'DIM G%%(%d):GET (%d,%d)-(%d,%d),G%%:F%%=1:%s' % (g[4], g[0], g[1], g[2], g[3], stmt)
+    c.d.exec(b'10 E%=-2:F%=0:ON ERROR GOTO 30:' + b(body) + b':E%=-1')
+    c.d.exec(b'20 GOTO 40')
+    c.d.exec(b'30 E%=ERR:RESUME 40')
+    c.d.exec(b'40 ON ERROR GOTO 0:END')
+    _scan_signals(c)
     before = _page_bytes(c)
     chars0 = c.d.chars()
     cur0 = _cursor(c)
     canvas0 = c.disp.pixel_rows()
     vp_before = c.viewport
-    res = _exec(c, stmt, poll_cap=60000)
+    res = _exec(c, 'GOTO 10', poll_cap=60000)
+    errcode = c.d.get(b'E%')
+    if res.err is not None or errcode == -2:
+        # the trap did not catch it (syntax error in the generated line, ...): not judged
+        run.probe('trapped program failed')
+        _scan_signals(c)
+        return
+    if kind == 'put' and body != stmt and c.d.get(b'F%') != 1:
+        # the GET that feeds the PUT failed: the PUT never ran
+        kind = 'get'
+    res = FakeRes(None if errcode == -1 else errcode)
     mode_set = _scan_signals(c)
     after = _page_bytes(c)
     c.compares += 1
@@ -1455,9 +1526,9 @@ def _gfx_common(c, op, kind):
         return
     if text_mode:
         run.probe('graphics statement in text mode')
-        if kind in DRAWING and res.err != 5:
+        if kind in DRAWING and errcode != 5:
             run.violate('C30', 'textmode:graphics-statement-not-error-5:' + kind,
-                        '%r in text mode gave %r (expected Illegal function call)' % (stmt, res.errs or res.out))
+                        '%r in text mode: trapped ERR=%r (expected 5, -1 means no error)' % (stmt, errcode))
         if changed:
             run.violate('C30', 'textmode:graphics-statement-changed-pixels:' + kind,
                         '%r in text mode changed pixels of page(s) %r' % (stmt, changed))
@@ -1480,23 +1551,18 @@ def _gfx_common(c, op, kind):
             if c.disp.pixel_rows() != canvas0:
                 run.violate('C30', 'page:display-changed-while-active-page-hidden:' + kind,
                             '%r with active page %d, visible page %d changed the reference display' % (stmt, ap, vp))
-        if ap in changed and ap < len(before) and c.viewport != 'unknown':
+        # VIEW itself draws its fill and border with the viewport unset: only the page is judged
+        if ap in changed and ap < len(before) and kind != 'view':
             bbox = _diff_bbox(before[ap], after[ap], width)
-            if kind == 'view' and not op.get('reset') and res.err is None:
-                x0, x1 = sorted((op['x0'], op['x1']))
-                y0, y1 = sorted((op['y0'], op['y1']))
-                ring = 1 if op.get('border') is not None else 0
-                allowed = (x0 - ring, y0 - ring, x1 + ring, y1 + ring)
-                what = 'new viewport %r%s' % ((x0, y0, x1, y1), ' plus border ring' if ring else '')
-            else:
-                allowed = vp_before or (0, 0, width - 1, geom[0] - 1)
-                what = 'viewport %r' % (allowed,)
+            allowed = vp_before or (0, 0, width - 1, geom[0] - 1)
             if bbox[0] < allowed[0] or bbox[1] < allowed[1] or bbox[2] > allowed[2] or bbox[3] > allowed[3]:
                 run.violate('C30', 'viewport:pixels-changed-outside:' + kind,
-                            '%r changed pixels in x %d..%d, y %d..%d on page %d; allowed: %s (screen %dx%d)' % (
-                                stmt, bbox[0], bbox[2], bbox[1], bbox[3], ap, what, width, geom[0]))
-            elif vp_before is not None or kind == 'view':
+                            '%r changed pixels in x %d..%d, y %d..%d on page %d; viewport %r (screen %dx%d)' % (
+                                stmt, bbox[0], bbox[2], bbox[1], bbox[3], ap, allowed, width, geom[0]))
+            elif vp_before is not None:
                 run.probe('drawing confined by a VIEW viewport')
+                if bbox[0] == allowed[0] or bbox[1] == allowed[1] or bbox[2] == allowed[2] or bbox[3] == allowed[3]:
+                    run.probe('drawing reaches the VIEW viewport edge')
     if res.err is not None and changed:
         run.probe('graphics statement failed after drawing')
     _update_viewport(c, op, kind, res)
